@@ -14,9 +14,16 @@ template <class F> void run_history(Src &s, GridState &st, const std::vector<int
         else if (st.constructing && has(OP_LOAD_CONSTR)) {   // state-aware choice: construction is a chain candidates -> deliveries -> finish
             static const std::vector<int> with_c = {OP_LOAD_CONSTR, OP_LOAD_CONSTR, OP_LOAD_CONSTR, OP_LOAD_CONSTR, OP_CANDIDATES, OP_FINISH_CONSTR};
             static const std::vector<int> without_c = {OP_CANDIDATES, OP_CANDIDATES, OP_CANDIDATES, OP_FINISH_CONSTR};
-            op = decode_op(s, st.spec, st.candidates.empty() ? without_c : with_c);
+            static const std::vector<int> with_t = {OP_LOAD_CONSTR, OP_LOAD_CONSTR, OP_LOAD_CONSTR, OP_CANDIDATES, OP_CANDIDATES, OP_FINISH_CONSTR};
+            op = decode_op(s, st.spec, (st.candidates.empty() && st.target.empty()) ? without_c : (st.candidates.empty() ? with_t : with_c));
         } else op = decode_op(s, st.spec, kinds);
-        if (apply_op(st, op)) after(op);
+        if (apply_op(st, op)) {
+            after(op);
+            // the usual adaptive loop is refine -> load: follow a successful proposal by a load half of the time so that multi-round adaptive
+            // grids (with gaps in the hierarchy) are reached with few bytes
+            if ((op.kind == OP_REF_SURP || op.kind == OP_REF_ANISO || op.kind == OP_UPDATE) && st.g.getNumNeeded() > 0 && has(OP_LOAD) && s.chance(1, 2)) {
+                Op ld; ld.kind = OP_LOAD; if (apply_op(st, ld)) after(ld); }
+        }
     }
 }
 
